@@ -243,7 +243,7 @@ func checkC19(p *core.Program, r *core.Report) {
 	r.Rule("O19.4", "verify: the verifier's error is the action's result (instance of O19.2 on Verify* sites)")
 	r.Rule("O19.5", "prove: exactly one stdout write site, printing the marshalled proof, on every success path exactly once and on no error path")
 	r.Rule("O19.8", "prove and verify decode the whole of stdin (read to end of stream), not one line / token / Read of it")
-	r.Rule("O19.7", "the codecs the pipeline is composed of hold their own obligations (imported verdicts of C08, C10, C11, C15, C16)")
+	r.Rule("O19.7", "the codecs the pipeline is composed of hold their own obligations (imported verdicts of C07, C08, C10, C11, C15, C16)")
 	r.Rule("O19.6", "log sinks: repository logger over stderr; re-pointing function unreachable from prove/verify/gen-test-params; gnark logger redirected before app.Run")
 	r.Trusted = append(r.Trusted, "urfave/cli returns an action's error from App.Run", "zerolog Fatal exits with status 1", "encoding/json.Marshal of *prover.Proof cannot fail (writes to an in-memory buffer)")
 	r.NotDecided = append(r.NotDecided, "exit codes produced by the Go runtime (panics, signals)", "writes to stdout from inside third-party libraries")
@@ -492,7 +492,7 @@ func checkC19(p *core.Program, r *core.Report) {
 	r.Count("stdin documents decoded", nDocs)
 	r.Floor("stdin documents decoded", 3)
 	// ---- O19.7: the pipeline composes through files and pipes only if the codecs it is made of do
-	importVerdicts(p, r, "O19.7", "setup | gen-test-params | prove | verify exchange keys files, parameter JSON, helper hashes and proof JSON", "C08", "C10", "C11", "C15", "C16")
+	importVerdicts(p, r, "O19.7", "setup | gen-test-params | prove | verify exchange keys files, parameter JSON, helper hashes and proof JSON, and verify's exit status is the verifier wrapper's verdict", "C07", "C08", "C10", "C11", "C15", "C16")
 }
 
 func checkProveStdout(p *core.Program, r *core.Report, ix *funcIndex, prove cliCommand, ps *types.Named) {
